@@ -43,6 +43,10 @@ func repr(n *Node, r int) (v interface{}, ok bool) {
 		return n.S, true
 	}
 	isDict := n.dictLen() > 0 || len(n.List) == 0
+	if isDict && len(n.List) > 0 && r != 0 && r != 1 {
+		// a node with named and indexed settings: only the generic map spellings can express it
+		r = 0
+	}
 	switch r {
 	case 0, 4, 5:
 		if isDict {
@@ -55,6 +59,13 @@ func repr(n *Node, r int) (v interface{}, ok bool) {
 					}
 					m[k] = cv
 				}
+			}
+			for i, e := range n.List {
+				ev, ok := repr(e, r)
+				if !ok {
+					return nil, false
+				}
+				m[itoa(i)] = ev
 			}
 			if r == 4 {
 				return &m, true
@@ -98,6 +109,13 @@ func repr(n *Node, r int) (v interface{}, ok bool) {
 					}
 					m[k] = cv
 				}
+			}
+			for i, e := range n.List {
+				ev, ok := repr(e, r)
+				if !ok {
+					return nil, false
+				}
+				m[itoa(i)] = ev
 			}
 			return m, true
 		}
@@ -169,9 +187,9 @@ func repr(n *Node, r int) (v interface{}, ok bool) {
 
 func c05Spec() genSpec {
 	if verif.Tier() > 0 {
-		return genSpec{depth: 2, keys: []string{"a", "b"}, maxList: 2, prims: 3, signed: true}
+		return genSpec{depth: 2, keys: []string{"a", "b"}, maxList: 2, prims: 3, signed: true, mixed: true}
 	}
-	return genSpec{depth: 1, keys: []string{"a", "b"}, maxList: 2, prims: 1, signed: true}
+	return genSpec{depth: 1, keys: []string{"a", "b"}, maxList: 2, prims: 1, signed: true, mixed: true}
 }
 
 // H_C05_repr: the same tree in every Go representation gives the same data; feeding the
